@@ -661,9 +661,12 @@ class EltoritoBootCatalog:
             self.state = self.EXPECTING_SECTION_HEADER_OR_DONE
         else:
             val = bytes(bytearray([valstr[0]]))
-            if val == b'\x00':
-                # An empty entry tells us we are done parsing El Torito.  Do
-                # some sanity checks.
+            section_open = bool(self.sections) and len(self.sections[-1].section_entries) < self.sections[-1].num_section_entries
+            if val == b'\x00' and not section_open:
+                # An empty entry tells us we are done parsing El Torito (inside
+                # a section that still expects entries, a boot indicator of 0
+                # is a Section Entry that is not bootable).  Do some sanity
+                # checks.
                 last_section_index = len(self.sections) - 1
                 for index, sec in enumerate(self.sections):
                     if sec.num_section_entries != len(sec.section_entries):
